@@ -59,14 +59,14 @@ EXTRA = {
  "C01": "; no row object reused across the entries of a request; cell scans / column lookups do not rely on an order that does not hold mid-request; timestamps from the injectable clock; whole-millisecond test on every accepting path",
  "C02": "; the content file is replaced by a truncating write; upload ids are the atomic increment's own result; every mutator in its matching critical section",
  "C03": "; the range-merge fold step is computed from its accumulator; the trailing row of SampleRowKeys is decided for every row; the scan variant agrees with which range ends are present; no nil bound; no per-range scratch value carried over; a sent chunk buffer is not recycled",
- "C04": "; conditions evaluated derive from the request on every path (backward flow); no per-source condition carried over from the previous source",
- "C05": "; copyRow gives copies their own cell slices; in-place compactions are truncated before use; isEmpty answers on the evidence of a cell",
+ "C04": "; no in-place mutation of objects handed out by the store (a rejected request leaves sources untouched); conditions evaluated derive from the request on every path (backward flow); no per-source condition carried over from the previous source",
+ "C05": "; the error of a nested filter evaluation is propagated; copyRow gives copies their own cell slices; in-place compactions are truncated before use; isEmpty answers on the evidence of a cell",
  "C06": "; GC never writes back a stale row; copyRow depth; the ReadModifyWriteRow timestamp depends on the newest existing cell",
- "C07": "; no nested object locks; check-then-act on the bucket map under one hold; stored memory-store records are never assigned in place",
+ "C07": "; the locked object is not read back after its lock was released; no nested object locks; check-then-act on the bucket map under one hold; stored memory-store records are never assigned in place",
  "C08": "; the optional DeleteTableMeta is in the value method set of a storage used as a value; registry check-then-act under one hold; a created table starts from a wiped directory and Clear reopens with nuke; walk callbacks examine their error first",
- "C09": "; Copy does not mix source and destination names; any return on an unreadable sidecar excludes not-exist first; siblings use the same named parameters; scrubbed fields are recomputed; directory entries never reach the per-object listing logic",
- "C10": "; every mutator in its matching critical section; stored records immutable",
- "C11": "; walk callback examines its error first; sibling parameter use; directory entries never reach the per-object listing logic",
+ "C09": "; directory pruning stops strictly below the bucket directory; Copy does not mix source and destination names; any return on an unreadable sidecar excludes not-exist first; siblings use the same named parameters; scrubbed fields are recomputed; directory entries never reach the per-object listing logic",
+ "C10": "; the locked object is not read back after its lock was released; every mutator in its matching critical section; stored records immutable",
+ "C11": "; recorded names carry the requested prefix; walk callback examines its error first; sibling parameter use; directory entries never reach the per-object listing logic",
  "C12": "; copyRow depth; no row deletion from inside an iteration; isEmpty answers on the evidence of a cell",
  "C13": "; timestamps from the injectable clock; column lookups do not rely on qualifier order; appendOrReplaceCell uniqueness conditions; read and write-back of every row RPC under one hold; the written timestamp depends on the newest existing cell",
  "C14": "; registry check-then-act under one hold; no nil scan bound; rows closed only at shutdown; the ListTables parent prefix includes the /tables/ separator",
@@ -110,7 +110,7 @@ json.dump(m,open('/verif/MANIFEST.json','w'),indent=1)
 FIX_PROPS={
  '659fa0e':'C17','d9b4edd':'C06','8e362d8':'C14','1a3ec83':'C05','d074582':'C05','4dbe7f4':'C03','ff68d64':'C16','739e5da':'C20','fbd49ff':'C20',
  'b6aac37':'C16','7524623':'C08','743ce43':'C15','d247afc':'C20','2f0bb4d':'C15','53bf577':'C20','c70c12b':'C07','3c0b511':'C10','9016315':'C07',
- '4ba9f80':'C11','2ba22ea':'C20','e54c65e':'C02','eced17a':'C11'}
+ '4ba9f80':'C11','2ba22ea':'C20','e54c65e':'C02','eced17a':'C11','b877043':'C07'}
 log=subprocess.run(['git','-C','/repo','log','--format=%h %s','1ff383a..HEAD'],capture_output=True,text=True).stdout.strip().splitlines()
 k=json.load(open('/verif/known_findings.json'))
 k['fixed']=[]
